@@ -297,6 +297,51 @@ pub fn string_sweep(name: &str, alpha: Vec<&'static str>, min: usize, max: usize
     )
 }
 
+// Integer literals of every length up to 64 digits and of 100, 1000 and 5000 digits, in five digit
+// patterns (all nines, a one followed by zeros, leading zeros, ascending digits, a power of two's
+// neighbourhood), alone and between identifiers: the token must carry exactly the decimal value of its
+// text (computed digit by digit in the reference) and be matched maximally.
+pub fn long_literal_sweep(prop: &'static str) -> Sweep {
+    let mut lengths: Vec<usize> = (1..=64).collect();
+    lengths.extend([100, 1000, 5000]);
+    let lengths = Rc::new(lengths);
+    let l2 = lengths.clone();
+    let digits = |len: usize, pattern: usize| -> String {
+        match pattern {
+            0 => "9".repeat(len),
+            1 => format!("1{}", "0".repeat(len - 1)),
+            2 => format!("{}7", "0".repeat(len - 1)),
+            3 => (0..len).map(|i| char::from(b'0' + ((i + 1) % 10) as u8)).collect(),
+            _ => {
+                // 2^64 - 1, 2^64, 2^64 + 1 ... padded / cut to the length
+                let base = "18446744073709551616";
+                (0..len).map(|i| base.as_bytes()[i % base.len()] as char).collect()
+            }
+        }
+    };
+    Sweep::new(
+        "integer literals of every length (five digit patterns, alone and between identifiers)",
+        (lengths.len() * 5 * 3) as u64,
+        move |idx| {
+            let i = idx as usize;
+            let d = digits(lengths[i / 15], (i / 3) % 5);
+            let text = match i % 3 {
+                0 => d.clone(),
+                1 => format!("x {d} y"),
+                _ => format!("f({d})+{d}#{d}\n{d}"),
+            };
+            count!("evaluations");
+            count!("long_literals");
+            match check_text(&text, prop) {
+                Outcome::Tokens | Outcome::Illegal => count!("nontrivial"),
+                Outcome::Known => count!("known_instances"),
+                Outcome::Violation => {}
+            }
+        },
+        move |idx| format!("literal of {} digits, pattern {}, embedding {}", l2[idx as usize / 15], (idx / 3) % 5, idx % 3),
+    )
+}
+
 pub fn de_bruijn_sweep(prop: &'static str) -> Sweep {
     let legal: Vec<&'static str> = sigma_lex().into_iter().filter(|f| !["$", "\u{301}", "👍", "\0"].contains(f)).collect();
     let texts: Rc<Vec<String>> = Rc::new(vec![de_bruijn_text(&legal, 3), de_bruijn_text(&sigma_lex(), 2), de_bruijn_text(&sigma_lex_core(), 3)]);
@@ -333,12 +378,13 @@ impl Prop for C09 {
             string_sweep("strings over Σlex-core", sigma_lex_core(), 4, tier.pick(4, 5), "C09"),
             string_sweep("strings over Σcluster", sigma_cluster(), 1, tier.pick(4, 5), "C09"),
             de_bruijn_sweep("C09"),
+            long_literal_sweep("C09"),
         ]
     }
     fn evidence(&self, tier: Tier) -> EvidenceSpec {
         EvidenceSpec {
             level: "exploration",
-            rule: "every concatenation of at most k fragments over the alphabets Σlex (44 fragments: every symbol, 1/2/3-byte whitespace, 1/2/4-byte letters, keywords and their prefix letters, ASCII and non-ASCII digits, illegal characters, a combining mark, NUL) Σlex-core (24) and Σcluster (20: regional indicators, zero width joiner, emoji with modifiers and variation selectors, consonant-virama-consonant, Hangul jamo, a combining mark, CR and LF next to ordinary text — characters whose grapheme cluster depends on the text before them), plus de Bruijn texts containing every fragment triple; each is tokenized by the real `tokenize` and compared with the declarative reference lexer and the partition invariants. Distinct by construction (one case per fragment sequence); non-trivial = at least two fragments yielding a token stream, or at least one illegal character".to_owned(),
+            rule: "every concatenation of at most k fragments over the alphabets Σlex (44 fragments: every symbol, 1/2/3-byte whitespace, 1/2/4-byte letters, keywords and their prefix letters, ASCII and non-ASCII digits, illegal characters, a combining mark, NUL) Σlex-core (24) and Σcluster (20: regional indicators, zero width joiner, emoji with modifiers and variation selectors, consonant-virama-consonant, Hangul jamo, a combining mark, CR and LF next to ordinary text — characters whose grapheme cluster depends on the text before them), plus de Bruijn texts containing every fragment triple, plus integer literals of every length 1..64 and of 100, 1000 and 5000 digits in five digit patterns (alone, between identifiers, next to symbols and comments); each is tokenized by the real `tokenize` and compared with the declarative reference lexer and the partition invariants. Distinct by construction (one case per fragment sequence); non-trivial = at least two fragments yielding a token stream, or at least one illegal character".to_owned(),
             assumptions: vec![
                 "reference lexer (engine/src/model/lexer.rs) states the token shapes of C09 and the line-break rule of C10".to_owned(),
                 "grapheme boundaries are computed with the unicode-segmentation crate (same crate as gram)".to_owned(),
